@@ -79,9 +79,9 @@ def main():
         shutil.rmtree(work, ignore_errors=True)
         ck.finish()
     ncorp = run_corpus(ck, exe, work)
-    nprogs = 260 if quick else 4000
+    nprogs = 1500 if quick else 30000
     opts = dict(jmpi=False)
-    fails, nev, stats, pwork = progtie.run_programs(ck, exe, ENGINES, nprogs, opts=opts, per_batch=10 if quick else 25)
+    fails, nev, stats, pwork = progtie.run_programs(ck, exe, ENGINES, nprogs, opts=opts, per_batch=25 if quick else 60)
     seen = {}
     for f in fails:
         sig = classify(f)
